@@ -490,12 +490,14 @@ func c20Fixpoint(e *Env) {
 		fname := w.FuncName(d.Obj)
 		// locals assigned from recursive calls
 		rec := map[*types.Var]bool{}
+		plain := map[*types.Var]int{} // assignments `v = pass(…)` / `v := pass(…)` that replace v's value
 		var firstRec token.Pos
 		ast.Inspect(d.Decl.Body, func(n ast.Node) bool {
 			if as, ok := n.(*ast.AssignStmt); ok && len(as.Lhs) == 1 && len(as.Rhs) == 1 {
 				if c, ok := unparen(as.Rhs[0]).(*ast.CallExpr); ok && calleeOf(info, c) == d.Obj {
 					if v := usedVar(info, as.Lhs[0]); v != nil {
 						rec[v] = true
+						plain[v]++
 						if !firstRec.IsValid() {
 							firstRec = as.Pos()
 						}
@@ -515,6 +517,13 @@ func c20Fixpoint(e *Env) {
 			return true
 		})
 		r.Check(dropped == 0, rule, fname+":no-dropped-subresult", w.Pos(d.Decl.Pos()), "no recursive call's change flag is discarded", fmt.Sprintf("%d recursive calls ignore their result", dropped))
+		overwritten := ""
+		for v, n := range plain {
+			if n > 1 {
+				overwritten = v.Name()
+			}
+		}
+		r.Check(overwritten == "", rule, fname+":no-overwritten-subresult", w.Pos(d.Decl.Pos()), "no sub-pass result is overwritten by the next one", "variable "+overwritten+" is assigned the result of more than one sub-pass with plain `=`: the earlier result is lost (use `"+overwritten+" = "+overwritten+" || pass(…)`)")
 		k := 0
 		par := parents(d.Decl)
 		ast.Inspect(d.Decl.Body, func(n ast.Node) bool {
